@@ -398,6 +398,16 @@ def _snapshot_rest(ctx: Ctx) -> None:
     ctx.tri("4-snapshot", sv, sv.node, (wr | rd) == {"cloudpickle"}, bool(by_ref), "the snapshot file is written and read with cloudpickle (arguments and exception by value)",
             f"the snapshot file is written/read with {sorted(by_ref)}: an argument that only cloudpickle can serialise (a lambda, a closure) makes save_to_file raise, and an exception class defined in the user's script cannot be loaded in another interpreter - reproduce() after save/load is lost",
             "serialiser of the snapshot file not recognised", key="save-by-value")
+    # ... from EVERY function of the pipeline: a NestedPipeFunc (its constructor does not chain to PipeFunc.__init__) must have the
+    # attribute from the start, or the walk over the functions dies with AttributeError before it reaches the one that failed
+    from ..flow import subclass_missing_attrs
+
+    miss = subclass_missing_attrs(P, "pipefunc._pipefunc.PipeFunc", "pipefunc._pipefunc.NestedPipeFunc")
+    reads = miss.get("error_snapshot", [])
+    ctx.add("4-snapshot", reads[0][0] if reads else "pipefunc._pipefunc.NestedPipeFunc", reads[0][1] if reads else "", "error_snapshot" not in miss,
+            "every kind of pipeline function has the error_snapshot attribute from construction on" if "error_snapshot" not in miss else
+            f"`{norm(reads[0][1]) if reads else 'error_snapshot'}` is read from every function of the pipeline, but NestedPipeFunc.__init__ never creates `error_snapshot`: for a pipeline that contains a nested function "
+            "Pipeline.error_snapshot raises AttributeError - before any failure, and after the failure of a function that is listed behind the nested one", key="nested-has-snapshot")
     pe = P.func("pipefunc._pipeline._base.Pipeline.error_snapshot")
     ctx.tri("4-snapshot", pe, pe.node, "self.functions" in norm(pe.node) and ".error_snapshot" in norm(pe.node), ".error_snapshot" not in norm(pe.node), "Pipeline.error_snapshot returns a function's snapshot",
             "Pipeline.error_snapshot no longer reads the functions' snapshots", key="pipeline-snapshot")
